@@ -66,21 +66,27 @@ impl<'data> Iterator for ArchiveIterator<'data> {
 
     fn next(&mut self) -> Option<Self::Item> {
         match self.iter.next() {
-            Some(Ok(member)) => Some(Ok(if self.is_thin {
-                ArchiveEntry::Thin(ThinEntry {
+            Some(Ok(member)) => Some(if self.is_thin {
+                Ok(ArchiveEntry::Thin(ThinEntry {
                     ident: Identifier {
                         data: member.name(),
                     },
-                })
+                }))
             } else {
-                ArchiveEntry::Regular(ArchiveContent {
-                    ident: Identifier {
-                        data: member.name(),
-                    },
-                    entry_data: member.data(self.data).unwrap(),
-                    data_offset: member.file_range().0 as usize,
-                })
-            })),
+                // Fails if the entry's header claims a size that extends past the end of the file.
+                member
+                    .data(self.data)
+                    .map(|entry_data| {
+                        ArchiveEntry::Regular(ArchiveContent {
+                            ident: Identifier {
+                                data: member.name(),
+                            },
+                            entry_data,
+                            data_offset: member.file_range().0 as usize,
+                        })
+                    })
+                    .map_err(|e| e.into())
+            }),
             Some(Err(e)) => Some(Err(e.into())),
             None => None,
         }
